@@ -146,6 +146,8 @@ class AbstractSpecification(object):
 
     # forwarding to interpreter
     def set_sampling_period(self, sampling_period=int(1), unit='s', tolerance=float(0.1)):
+        if unit not in ('s', 'ms', 'us', 'ns'):
+            raise RTAMTException('Unknown time unit {}: the units are s, ms, us and ns.'.format(unit))
         self.ast.sampling_period = sampling_period
         self.ast.sampling_period_unit = unit
 
